@@ -735,7 +735,11 @@ def directed_program(ctx, calc, quick, with_tri=True):
     if not quick:
         d2 = Dir(ctx, calc, ctx.rng.fork("c01-directed-structure"), dr)
         d2.k = d.k + 100000
-        cases += d2.family_alias(quick)
+        seq = [0]
+        vk, mk = ["row", "col", "diag", "tovec"], ["var", "trans", "mrange", "rows", "cols", "transrange"]
+        n = dr.choice([3, 5, 6])
+        cases += d2.fam_alias_storage("A", (n, n), vk, mk, 6, seq)
+        cases += d2.fam_alias_storage("B", (dr.range(3, 6), dr.range(3, 6)), ["row", "col", "tovec"], mk, 6, seq)
         for k, v in d2.skipped.items():
             d.skipped[k] = d.skipped.get(k, 0) + v
     return cases, d.skipped
